@@ -144,26 +144,29 @@ def to_chain_structure(qc, setup="linear"):
                         if gate.name in ["CNOT", "CSIGN"]:
                             qc_t.add_gate(
                                 gate.name,
-                                end + gate.targets[0],
-                                end + gate.controls[0],
-                            )
-                        else:
-                            qc_t.add_gate(
-                                gate.name,
-                                [end + gate.targets[0], end + gate.targets[1]],
-                            )
-                    elif j == N - end - 2:
-                        if gate.name in ["CNOT", "CSIGN"]:
-                            qc_t.add_gate(
-                                gate.name,
-                                end + gate.targets[0],
+                                (end + gate.targets[0]) % N,
                                 (end + gate.controls[0]) % N,
                             )
                         else:
                             qc_t.add_gate(
                                 gate.name,
                                 [
-                                    end + gate.targets[0],
+                                    (end + gate.targets[0]) % N,
+                                    (end + gate.targets[1]) % N,
+                                ],
+                            )
+                    elif j == N - end - 2:
+                        if gate.name in ["CNOT", "CSIGN"]:
+                            qc_t.add_gate(
+                                gate.name,
+                                (end + gate.targets[0]) % N,
+                                (end + gate.controls[0]) % N,
+                            )
+                        else:
+                            qc_t.add_gate(
+                                gate.name,
+                                [
+                                    (end + gate.targets[0]) % N,
                                     (end + gate.targets[1]) % N,
                                 ],
                             )
@@ -244,13 +247,16 @@ def to_chain_structure(qc, setup="linear"):
                     if j < N - end - 2:
                         qc_t.add_gate(
                             gate.name,
-                            [end + gate.targets[0], end + gate.targets[1]],
+                            [
+                                (end + gate.targets[0]) % N,
+                                (end + gate.targets[1]) % N,
+                            ],
                         )
                     elif j == N - end - 2:
                         qc_t.add_gate(
                             gate.name,
                             [
-                                end + gate.targets[0],
+                                (end + gate.targets[0]) % N,
                                 (end + gate.targets[1]) % N,
                             ],
                         )
